@@ -341,3 +341,42 @@ def thorough(prog, rep):
             per[f'{store.name}.{name}'] = {'paths': len(paths), 'unbalanced': bad}
             total += len(paths)
     rep.extra['path_enumeration'] = {'paths': total, 'capped': capped, 'per_function': per}
+
+
+NX = 'fim/graph/networkx_property_graph.py'
+DJ = 'fim/graph/networkx_property_graph_disjoint.py'
+MUTANTS = [
+    {'name': 'shared-del_graph-finally-removed', 'file': NX, 'rule': 'R1',
+     'find': '            try:\n                self.__del_graph_nl(graph_id)\n            finally:\n                self.lock.release()\n',
+     'replace': '            self.__del_graph_nl(graph_id)\n            self.lock.release()\n'},
+    {'name': 'disjoint-add_graph-double-release', 'file': DJ, 'rule': 'R1',
+     'find': '                    # the lock is released in the finally clause\n                    return\n',
+     'replace': '                    self.lock.release()\n                    return\n'},
+    {'name': 'disjoint-extract-finally-removed', 'file': DJ, 'rule': 'R1',
+     'find': '            try:\n                graph = self.graphs[graph_id]\n            finally:\n                self.lock.release()\n',
+     'replace': '            graph = self.graphs[graph_id]\n            self.lock.release()\n'},
+    {'name': 'shared-add_graph-calls-locking-del_graph', 'file': NX, 'rule': 'R2', 'count': 2,
+     'find': '                    self.__del_graph_nl(graph_id)\n', 'replace': '                    self.del_graph(graph_id)\n'},
+    {'name': 'shared-blank-node-return-after-release', 'file': NX, 'rule': 'R3',
+     'find': '                self.start_id = self.start_id + 1\n                return self.start_id - 1\n            except Exception as e:\n                raise e\n            finally:\n                self.lock.release()\n',
+     'replace': '                self.start_id = self.start_id + 1\n            except Exception as e:\n                raise e\n            finally:\n                self.lock.release()\n            return self.start_id - 1\n'},
+    {'name': 'disjoint-counter-bump-after-release', 'file': DJ, 'rule': 'R3',
+     'find': '                self.graph_node_ids[graph_id] += 1\n                self.graphs[graph_id].add_node(new_id, GraphID=graph_id, **attrs)\n            except Exception as e:\n                raise e\n            finally:\n                self.lock.release()\n',
+     'replace': '                self.graphs[graph_id].add_node(new_id, GraphID=graph_id, **attrs)\n            except Exception as e:\n                raise e\n            finally:\n                self.lock.release()\n            self.graph_node_ids[graph_id] += 1\n'},
+    {'name': 'shared-extract-early-return-before-try', 'file': NX, 'rule': 'R1',
+     'find': '            self.lock.acquire()\n            try:\n                # extract copy of graph from store or return None\n',
+     'replace': '            self.lock.acquire()\n            if graph_id is None:\n                return None\n            try:\n                # extract copy of graph from store or return None\n'},
+    {'name': 'singleton-lock-removed', 'file': NX, 'rule': 'R4',
+     'find': '        with NetworkXGraphStorage.storage_instance_lock:\n            if not NetworkXGraphStorage.storage_instance:\n                NetworkXGraphStorage.storage_instance = NetworkXGraphStorage.__NetworkXGraphStorage(logger=logger)\n',
+     'replace': '        if not NetworkXGraphStorage.storage_instance:\n            NetworkXGraphStorage.storage_instance = NetworkXGraphStorage.__NetworkXGraphStorage(logger=logger)\n'},
+]
+TWINS = [
+    {'name': 'with-lock-form', 'file': NX,
+     'find': '            self.lock.acquire()\n            try:\n                self.__del_graph_nl(graph_id)\n            finally:\n                self.lock.release()\n',
+     'replace': '            with self.lock:\n                self.__del_graph_nl(graph_id)\n'},
+    {'name': 'pure-local-moved-out-of-section', 'file': DJ,
+     'find': '            self.lock.acquire()\n            try:\n                # check this graph_id isn\'t already present\n                if graph_id in self.graphs.keys():\n                    self.graphs[graph_id].clear()\n                # relabel incoming graph nodes to integers, then merge\n                temp_graph = nx.convert_node_labels_to_integers(graph, 1)\n',
+     'replace': '            temp_graph = nx.convert_node_labels_to_integers(graph, 1)\n            self.lock.acquire()\n            try:\n                if graph_id in self.graphs.keys():\n                    self.graphs[graph_id].clear()\n'},
+    {'name': 'except-reraise-bare', 'file': NX, 'count': 4,
+     'find': '            except Exception as e:\n                raise e\n', 'replace': '            except Exception:\n                raise\n'},
+]
